@@ -73,10 +73,6 @@ Qed.
 Lemma unknown_same_constraints r r' es : r_constraints r' = r_constraints r -> unknown_constraint r' es = unknown_constraint r es.
 Proof. intros H. unfold unknown_constraint, registered. rewrite H. reflexivity. Qed.
 
-Lemma tinfo_single t d e r0 :
-  tinfo t d [e] r0 = if route_eq_dec (exp_route e) r0 then Some (mk_info t false d e) else None.
-Proof. unfold tinfo. cbn [fold_info]. destruct (route_eq_dec (exp_route e) r0); reflexivity. Qed.
-
 Lemma one_by_one_spec d : forall es r,
   RInv r -> (forall e, In e es -> parse (fst e) = Ret [e]) -> NoDup (map exp_route es) ->
   (forall e, In e es -> unknown_constraint r [e] = None) ->
